@@ -15,3 +15,29 @@ package options
 //@ scan[real-client-ip-parser-writers] field-writers Options.realClientIPParser pkg/apis/options.(*Options).SetRealClientIPParser
 //@ scan[real-client-ip-parser-setter-callers] callers (*Options).SetRealClientIPParser pkg/validation.Validate
 //@ scan[reverse-proxy-option-writers] field-writers Options.ReverseProxy pkg/apis/options.NewOptions pkg/apis/options.(*LegacyOptions).ToOptions
+
+// getters of the values validation stored: plain field reads
+//@ func (*Options).GetRealClientIPParser
+//@ prop C16 C15
+//@ nomod
+//@ ensures[returns-the-stored-parser] result == o.realClientIPParser
+
+//@ func (*Options).GetRedirectURL
+//@ prop C06 C17
+//@ nomod
+//@ ensures[returns-the-stored-url] result == o.redirectURL
+
+//@ func (*Options).GetSignatureData
+//@ prop C07
+//@ nomod
+//@ ensures[returns-the-stored-signature-data] result == o.signatureData
+
+//@ func (*Options).GetOIDCVerifier
+//@ prop C04
+//@ nomod
+//@ ensures[returns-the-stored-verifier] result == o.oidcVerifier
+
+//@ func (*Options).GetJWTBearerVerifiers
+//@ prop C04
+//@ nomod
+//@ ensures[returns-the-stored-verifiers] result == o.jwtBearerVerifiers
